@@ -46,7 +46,8 @@ def remap_curie_prefixes(converter: Converter, remapping: Mapping[str, str]) -> 
     :returns: An upgraded converter
     """
     ordering = _order_curie_remapping(converter, remapping)
-    intersection = set(remapping).intersection(remapping.values())
+    # prefixes that an applicable pair of the remapping hands over to another record
+    handed_over = {new for old, new in remapping.items() if old in converter.synonym_to_prefix}
     # work on copies so the records of the given converter are left untouched
     converter = Converter(
         [r.model_copy(deep=True) for r in converter.records], delimiter=converter.delimiter
@@ -74,9 +75,9 @@ def remap_curie_prefixes(converter: Converter, remapping: Mapping[str, str]) -> 
                 new_prefix,
                 new_record,
             )
-        elif old in intersection:
+        elif old in handed_over:
             record.prefix_synonyms = sorted(
-                set(record.prefix_synonyms).difference({old, new_prefix})
+                set(record.prefix_synonyms).union({record.prefix}).difference({old, new_prefix})
             )
             record.prefix = new_prefix
         else:
